@@ -217,7 +217,7 @@ func (P *Program) loadContractFile(file string) error {
 				return fmt.Errorf("%s:%d: bad interface header %q", file, line, text)
 			}
 			key := pkg + "." + m[2] + "." + m[3]
-			if m[1] != "" && m[1] != pkg {
+			if m[1] != "" {
 				// contract on another package's interface, used only while verifying functions of this package
 				key = pkg + ":" + m[1] + "." + m[2] + "." + m[3]
 			}
